@@ -98,14 +98,6 @@ package sub
 //@   ensures cast("*socket", result).master.closed == false
 //@
 // ---- end generated default contracts ----
-// ---- generated AddPipe contracts (tools/gen_addpipe_contracts.py) ----
-//@ func (*socket).AddPipe
-//@   ghost wasClosed = s.closed at call:Lock#1
-//@   ensures wasClosed ==> result == protocol.ErrClosed && !spawned("receiver") && !spawned("sender")
-//@   ensures !wasClosed && isnil(result) ==> spawned("receiver")
-//@   ensures !wasClosed ==> isnil(result)
-//@
-// ---- end generated AddPipe contracts ----
 //@
 //@ func (*socket).Close
 //@   ghost was = s.closed at call:Lock#1
@@ -119,3 +111,11 @@ package sub
 //@ func (*context).RecvMsg
 //@   loop 1 ensures !called_since("loop1:head", "After") && !called_since("loop1:head", "NewTimer") && !called_since("loop1:head", "AfterFunc")
 //@   before select#1 assert selwaits(timeQ) && (at("call:Unlock#1", c.recvExpire) > 0 ==> timer_d(timeQ) == at("call:Unlock#1", c.recvExpire))
+// ---- generated AddPipe contracts (tools/gen_addpipe_contracts.py) ----
+//@ func (*socket).AddPipe
+//@   ghost wasClosed = s.closed at call:Lock#1
+//@   ensures wasClosed ==> result == protocol.ErrClosed && !spawned("receiver") && !spawned("sender")
+//@   ensures !wasClosed && isnil(result) ==> spawned("receiver")
+//@   ensures !wasClosed ==> isnil(result)
+//@
+// ---- end generated AddPipe contracts ----
